@@ -28,16 +28,16 @@ var rcOps = []string{"states", "state", "project_state", "info", "names", "log",
 
 func rcYAML(worldID int, shape int, version int) string {
 	var b strings.Builder
-	b.WriteString("version: \"0.5\"\nlog_length: 200\nprocesses:\n")
+	b.WriteString("version: \"0.5\"\nlog_length: 60\nenvironment:\n  - 'G1=one'\n  - 'G2=two'\nenv_cmds:\n  GCMD: 'echo x'\nprocesses:\n")
 	w := func(name string, s sim.Script, extra string) {
 		s.W = worldID
 		fmt.Fprintf(&b, "  %s:\n    command: %s\n%s", name, yq(sim.FormatCommand(s, "")), extra)
 	}
 	// a restarting, logging process
-	w("rs", sim.Script{Exits: []int{1}, RunMs: []int{3}, Out: []sim.Chunk{{Stream: "o", N: 5}, {Stream: "e", N: 2, When: "x"}}}, "    availability:\n      restart: always\n")
+	w("rs", sim.Script{Exits: []int{1}, RunMs: []int{1}, Out: []sim.Chunk{{Stream: "o", N: 50}, {Stream: "e", N: 10, When: "x"}}}, "    availability:\n      restart: always\n    environment:\n      - 'P=rs'\n")
 	// long-running ones
-	w("lr", sim.Script{RunMs: []int{-1}, Out: []sim.Chunk{{Stream: "o", N: 20}}, Tag: fmt.Sprint("v", version)}, "")
-	w("sc", sim.Script{RunMs: []int{-1}, Out: []sim.Chunk{{Stream: "o", N: 3}}}, "")
+	w("lr", sim.Script{RunMs: []int{-1}, Out: []sim.Chunk{{Stream: "o", N: 20}}, Tag: fmt.Sprint("v", version)}, "    environment:\n      - 'P=lr'\n")
+	w("sc", sim.Script{RunMs: []int{-1}, Out: []sim.Chunk{{Stream: "o", N: 3}}}, "    environment:\n      - 'P=sc'\n")
 	// fast exiting, with a dependent
 	w("fx", sim.Script{RunMs: []int{2}, Exits: []int{0}}, "")
 	w("dp", sim.Script{RunMs: []int{4}}, "    depends_on:\n      fx:\n        condition: process_completed\n")
@@ -132,7 +132,18 @@ func runRacePair(c fw.Case) fw.Result {
 				case "names":
 					_, _ = run.GetLexicographicProcessNames()
 				case "log":
-					_, _ = run.GetProcessLog(n, rng.Intn(20), rng.Intn(10))
+					// like the TUI / REST handler: the returned lines are read after the call
+					if rng.Intn(2) == 0 {
+						n = "rs" // the process that logs all the time
+					}
+					if lines, err := run.GetProcessLog(n, rng.Intn(80), rng.Intn(40)); err == nil {
+						time.Sleep(time.Duration(rng.Intn(6000)) * time.Microsecond)
+						total := 0
+						for _, l := range lines {
+							total += len(l)
+						}
+						_ = total
+					}
 				case "log_length":
 					_ = run.GetProcessLogLength(n)
 				case "subscribe":
